@@ -37,8 +37,8 @@ def run(ctx):
     ctx.step(common.atomic_floors, ctx, "C07.orders", sorted(atab["fields"]), floor=80)
     ctx.step(mutable_state, ctx)
     ctx.step(c19.orders, ctx, "C07.tripline")
-    ctx.step(c12.publish, ctx, "C07.publish")
-    ctx.step(c05.register, ctx, "C07.publish-log")
+    ctx.step(c12.publish, ctx, "C07.publish", False)
+    ctx.step(c05.register, ctx, "C07.publish-log", False, True)
     ctx.step(common.rcu_writer_guard, ctx, "C07.rcu-writers")
     if ctx.tier == "thorough":
         from ..ircheck import cross_check
